@@ -216,6 +216,52 @@ func c09(c *core.Ctx) {
 		}
 		c.Distinct(uint64(i) | 4<<50)
 	})
+	// (1d) an ERROR-CODE without reason text (nil slice) is an ERROR-CODE with the empty reason, for every code
+	c.Section("error-code-nil-reason", 400, func(i int64, r *gen.Rand) {
+		code := 300 + int(i)
+		m := c09Preceding(r)
+		var reason []byte
+		if i%3 == 1 {
+			reason = []byte{}
+		}
+		c09Try(c, m, fmt.Sprintf("ErrorCodeAttribute{Code:%d,Reason:nil}", code), stun.ErrorCodeAttribute{Code: stun.ErrorCode(code), Reason: reason}, true, "", 0x0009)
+		if k := len(m.Attributes); k > 0 && m.Attributes[k-1].Type == stun.AttrErrorCode {
+			if v := m.Attributes[k-1].Value; len(v) != 4 || int(v[2])*100+int(v[3]) != code {
+				c.Violate("accepted-but-not-appended", "not-appended:ErrorCodeAttribute-nil-reason", map[string]interface{}{"code": code, "value_hex": core.Hex(v), "expected": "class, number and an empty reason"})
+			}
+		}
+		c.Distinct(uint64(code) | 5<<50)
+	})
+	// (1e) the limits do not move with what other messages in the process were given before
+	c.Section("limits-after-history", c.N(200, 50000), func(i int64, r *gen.Rand) {
+		for k := 2 + r.Intn(6); k > 0; k-- {
+			o := c09Preceding(r)
+			switch r.Intn(6) {
+			case 0:
+				ua := make(stun.UnknownAttributes, r.PickInt([]int{1, 60, 384, 500, 1000, 3000}))
+				for j := range ua {
+					ua[j] = stun.AttrType(r.U64())
+				}
+				_ = ua.AddTo(o)
+			case 1:
+				_ = stun.ErrorCodeAttribute{Code: stun.CodeBadRequest, Reason: r.Bytes(r.PickInt([]int{0, 100, 763}))}.AddTo(o)
+			case 2:
+				_ = stun.Software(r.Bytes(763)).AddTo(o)
+			case 3:
+				_ = stun.Username(r.Bytes(513)).AddTo(o)
+			case 4:
+				o.Add(stun.AttrData, r.Bytes(r.PickInt([]int{1200, 5000, 20000})))
+			default:
+				_ = (&stun.XORMappedAddress{IP: net.IP(r.Bytes(16)), Port: 1}).AddTo(o)
+			}
+		}
+		ts := texts[int(i)%len(texts)]
+		for _, n := range []int{ts.limit + 1, ts.limit, ts.limit + 37, ts.limit + 237} {
+			m := c09Preceding(r)
+			c09Try(c, m, fmt.Sprintf("%s(%dB) after other messages were built", ts.name, n), ts.mk(r.Bytes(n)), n <= ts.limit, "size-overflow", ts.typ)
+		}
+		c.Distinct(r.U64())
+	})
 	// (2) IP lengths 0..20 for every address setter
 	type ipSetter struct {
 		name string
@@ -293,7 +339,18 @@ func c09(c *core.Ctx) {
 				m.Add(stun.AttrType(t), r.Bytes(r.ValueLen(30)))
 			}
 		}
-		c09Try(c, m, fmt.Sprintf("MessageIntegrity.AddTo(fingerprint at %d of %d)", fpAt, n), stun.NewShortTermIntegrity(string(r.Bytes(r.Intn(30)))),
+		what := fmt.Sprintf("MessageIntegrity.AddTo(fingerprint at %d of %d)", fpAt, n)
+		if fpAt >= 0 && r.Chance(1, 3) {
+			// the same message as it arrives from the network: decoded in place from a buffer that holds more bytes
+			// than the message (the refusal must leave those alone too)
+			m2 := &stun.Message{Raw: append(append([]byte(nil), m.Raw...), r.Bytes(1+r.Intn(12))...)}
+			if err := m2.Decode(); err != nil {
+				fatalHarness("C09 re-decode: " + err.Error())
+			}
+			m = m2
+			what += " on a decoded message with bytes behind it"
+		}
+		c09Try(c, m, what, stun.NewShortTermIntegrity(string(r.Bytes(r.Intn(30)))),
 			fpAt < 0, "fingerprint-before-integrity", 0x0008)
 		c.Distinct(uint64(fpAt+1)<<8 | uint64(n) | 3<<40)
 	})
